@@ -93,7 +93,11 @@ Definition set_irrelevant_change (p : proxy) (sn : Z) : proxy :=
   let p1 := if p_base p <=? sn then set_changes p (ins sn (p_changes p)) else p in
   if sn =? p_base p then advance_ack_base p1 else p1.
 
-(* irrelevant_changes_range(remove_from, remove_until_before) *)
+(* irrelevant_changes_range(remove_from, remove_until_before), as it is after repo fix c71c7f1
+   ("bound the work done for a GAP range by the ACKNACK window"): when the range starts above
+   ack_base only the sequence numbers up to min(remove_until_before - 1, ack_base + 255) get a
+   not-available marker; the rest of the range is NOT recorded (it is requested again once ack_base
+   has advanced, and the writer's renewed GAP then starts at ack_base and takes the first branch). *)
 Definition irrelevant_changes_range (p : proxy) (from until : Z) : proxy :=
   if until <? from then p                                   (* error!("negative range"); return *)
   else if from <=? p_base p then
@@ -101,7 +105,19 @@ Definition irrelevant_changes_range (p : proxy) (from until : Z) : proxy :=
     let p1 := set_changes p (filter (fun s => negb ((from <=? s) && (s <? until))) (p_changes p)) in
     if p_base p <? until then advance_ack_base (set_base p1 until) else p1
   else
-    (* for na in range_inclusive(from, until - 1) { changes.insert(na, None) } *)
+    (* let last_to_mark = min(remove_until_before - 1, ack_base + 255);
+       for na in range_inclusive(from, last_to_mark) { changes.insert(na, None) } *)
+    let last_to_mark := Z.min (until - 1) (p_base p + 255) in
+    set_changes p (fold_right ins (p_changes p) (iota from (Z.to_nat (last_to_mark - from + 1)))).
+
+(* the code before fix c71c7f1 (one marker per sequence number of the range, however long);
+   kept for the contrast lemma icr_old_new in Proxy.v, not used by [step] *)
+Definition irrelevant_changes_range_old (p : proxy) (from until : Z) : proxy :=
+  if until <? from then p
+  else if from <=? p_base p then
+    let p1 := set_changes p (filter (fun s => negb ((from <=? s) && (s <? until))) (p_changes p)) in
+    if p_base p <? until then advance_ack_base (set_base p1 until) else p1
+  else
     set_changes p (fold_right ins (p_changes p) (iota from (Z.to_nat (until - from)))).
 
 (* irrelevant_changes_up_to(smallest) = irrelevant_changes_range(SequenceNumber::new(0), smallest) *)
@@ -414,68 +430,126 @@ Definition obs_eqb (a b : obs) : bool :=
 
 (* ---------------------------------------------------------------------------------------- *)
 (* Property oracle.  It keeps, per writer, a summary of what the history has told the reader — only
-   inputs (submessages) and observed outputs (cache changes added) enter it:
+   inputs (submessages) and observed outputs (cache changes added, the hand-over bound
+   RtpsWriterProxy::all_ackable_before reported after every submessage) enter it:
      s_lo    everything below is unavailable by an effective HEARTBEAT (first_sn)
-     s_rng   GAP ranges [gapStart, gapList.base)
+     s_rng   GAP ranges [gapStart, gapList.base), each with the reader's ack base observed when the
+             GAP arrived
      s_pts   sequence numbers listed in GAP bitmaps, and those whose sample was added to the cache
      s_hbmax highest HEARTBEAT count so far (a HEARTBEAT is effective iff its count is higher)
      s_adv   range advertised by the last effective HEARTBEAT
-     s_lastbase / s_lastcount   base of the last ACKNACK / count of the last ACKNACK or NACKFRAG *)
+     s_lastbase / s_lastcount   base of the last ACKNACK / count of the last ACKNACK or NACKFRAG
+     s_base  all_ackable_before observed after the previous submessage of this writer ([so_base];
+             1 = RtpsWriterProxy::new before the first one)
+
+   DECLARED and RECORDED.  Since repo fix c71c7f1 the reader deliberately records a GAP range that
+   starts above its ack base only within the 256 sequence numbers from the ack base (the numbers the
+   next ACKNACK can name); the remainder is requested again later and the writer has to declare it
+   again (that GAP then starts at the ack base and is taken over whole).  So the summary yields two
+   sets:
+     [known s m]    DECLARED: m was received, or some submessage told the reader that m is
+                    unavailable (HEARTBEAT.first above it, inside a valid GAP's range, in its bitmap);
+     [recorded s m] RECORDED: what the reader accepted — like declared, but a GAP range whose start
+                    was above the ack base at that time counts only up to that ack base + 256.
+   recorded s m -> known s m for every summary (lemma recorded_sub_known, Oracle.v).
+   The property text is read as follows (properties.jsonl, C03):
+     "its base never exceeds the lowest sequence number the reader has neither received nor been
+      told is unavailable"                        — judged against DECLARED (clause [truthful] below,
+                                                     unchanged by the repair);
+     "every sequence number listed as missing is really missing and lies inside the range the writer
+      last advertised"                            — judged against RECORDED: a number that was named
+                                                     only in the far part of such a GAP is not received
+                                                     and not recorded, for the reader it is missing
+                                                     and it has to ask again;
+     "Whenever the advertised range contains a missing sample, the lowest one is requested"
+                                                  — judged against RECORDED: the lowest number of
+                                                     the range that is not recorded must be requested
+                                                     (a reader that neither records the far part of a
+                                                     GAP nor asks for it again fails this clause). *)
+Record grange := { g_from : Z; g_until : Z; g_ackbase : Z }.
+
 Record wspec := {
   s_lo : Z;
-  s_rng : list (Z * Z);
+  s_rng : list grange;
   s_pts : list Z;
   s_hbmax : Z;
   s_adv : option (Z * Z);
   s_lastbase : Z;
   s_lastcount : option Z;
-  s_frag : list Z }.     (* sequence numbers of which a DATAFRAG has been seen *)
+  s_frag : list Z;       (* sequence numbers of which a DATAFRAG has been seen *)
+  s_base : Z }.
 
 Definition spec0 : wspec :=
   {| s_lo := 1; s_rng := []; s_pts := []; s_hbmax := 0; s_adv := None; s_lastbase := 1;
-     s_lastcount := None; s_frag := [] |}.
+     s_lastcount := None; s_frag := []; s_base := 1 |}.
 
-Definition in_rng (m : Z) (r : Z * Z) : bool := (fst r <=? m) && (m <? snd r).
-(* "received, or told it is unavailable" *)
+Definition in_rng (m : Z) (r : grange) : bool := (g_from r <=? m) && (m <? g_until r).
+(* DECLARED: "received, or told it is unavailable" *)
 Definition known (s : wspec) (m : Z) : bool :=
   (m <? s_lo s) || existsb (in_rng m) (s_rng s) || memz m (s_pts s).
 
+(* the end of the part of a GAP range that the reader records (irrelevant_changes_range): all of it
+   when it starts at or below the ack base, otherwise only up to ack base + 255 inclusive *)
+Definition g_cut (r : grange) : Z :=
+  if g_from r <=? g_ackbase r then g_until r else Z.min (g_until r) (g_ackbase r + 256).
+Definition rec_rng (r : grange) : grange :=
+  {| g_from := g_from r; g_until := g_cut r; g_ackbase := g_ackbase r |}.
+(* the summary with every GAP range cut to its recorded part *)
+Definition rec_view (s : wspec) : wspec :=
+  {| s_lo := s_lo s; s_rng := map rec_rng (s_rng s); s_pts := s_pts s; s_hbmax := s_hbmax s;
+     s_adv := s_adv s; s_lastbase := s_lastbase s; s_lastcount := s_lastcount s; s_frag := s_frag s;
+     s_base := s_base s |}.
+(* RECORDED: "received, or told it is unavailable and taken note of" *)
+Definition recorded (s : wspec) (m : Z) : bool := known (rec_view s) m.
+
 (* the least unknown number >= x is x itself, s_lo, the end of a range, or the successor of a point *)
-Definition cands (s : wspec) : list Z := s_lo s :: map snd (s_rng s) ++ map (fun p => p + 1) (s_pts s).
+Definition cands (s : wspec) : list Z :=
+  s_lo s :: map g_until (s_rng s) ++ map (fun p => p + 1) (s_pts s).
 Fixpoint minl (x : Z) (l : list Z) : Z :=
   match l with [] => x | y :: l' => minl (Z.min x y) l' end.
+(* least number >= x that is not DECLARED *)
 Definition lowest_unknown (s : wspec) (x : Z) : option Z :=
   match filter (fun c => (x <=? c) && negb (known s c)) (x :: cands s) with
   | [] => None
   | c :: l => Some (minl c l)
   end.
+(* least number >= x that is not RECORDED *)
+Definition lowest_unrecorded (s : wspec) (x : Z) : option Z := lowest_unknown (rec_view s) x.
 
 Definition sstate := Z -> option wspec.    (* None = writer not matched *)
 Definition sinit (matched : list Z) : sstate := fun w => if memz w matched then Some spec0 else None.
 
 Definition add_pts (s : wspec) (l : list Z) : wspec :=
   {| s_lo := s_lo s; s_rng := s_rng s; s_pts := l ++ s_pts s; s_hbmax := s_hbmax s; s_adv := s_adv s;
-     s_lastbase := s_lastbase s; s_lastcount := s_lastcount s; s_frag := s_frag s |}.
+     s_lastbase := s_lastbase s; s_lastcount := s_lastcount s; s_frag := s_frag s; s_base := s_base s |}.
+Definition set_sbase (s : wspec) (b : Z) : wspec :=
+  {| s_lo := s_lo s; s_rng := s_rng s; s_pts := s_pts s; s_hbmax := s_hbmax s; s_adv := s_adv s;
+     s_lastbase := s_lastbase s; s_lastcount := s_lastcount s; s_frag := s_frag s; s_base := b |}.
 
 (* what the submessage tells the reader (validity rules: numbers accepted; GAP gapStart >= 1 and
-   gapList.base >= 1; HEARTBEAT count higher than any before) *)
+   gapList.base >= 1; HEARTBEAT count higher than any before).  A GAP range is stored together with
+   the ack base the reader had when it arrived ([s_base]: observed after the previous submessage of
+   the writer; nothing else moves a writer proxy's ack base). *)
 Definition spec_input (s : wspec) (o : op) : wspec :=
   match o with
   | Data _ _ _ _ => s
   | Frag _ df _ =>
       {| s_lo := s_lo s; s_rng := s_rng s; s_pts := s_pts s; s_hbmax := s_hbmax s; s_adv := s_adv s;
-         s_lastbase := s_lastbase s; s_lastcount := s_lastcount s; s_frag := F.df_sn df :: s_frag s |}
+         s_lastbase := s_lastbase s; s_lastcount := s_lastcount s; s_frag := F.df_sn df :: s_frag s;
+         s_base := s_base s |}
   | Hb _ first last count _ =>
       if (first <=? MAX_SN) && (last <=? MAX_SN) && (s_hbmax s <? count) then
         {| s_lo := Z.max (s_lo s) first; s_rng := s_rng s; s_pts := s_pts s; s_hbmax := count;
            s_adv := Some (first, last); s_lastbase := s_lastbase s; s_lastcount := s_lastcount s;
-           s_frag := s_frag s |}
+           s_frag := s_frag s; s_base := s_base s |}
       else s
   | Gap _ start base _ bits =>
       if (start <=? MAX_SN) && (base <=? MAX_SN) && (1 <=? start) && (1 <=? base) then
-        {| s_lo := s_lo s; s_rng := (start, base) :: s_rng s; s_pts := bits ++ s_pts s;
+        {| s_lo := s_lo s;
+           s_rng := {| g_from := start; g_until := base; g_ackbase := s_base s |} :: s_rng s;
+           s_pts := bits ++ s_pts s;
            s_hbmax := s_hbmax s; s_adv := s_adv s; s_lastbase := s_lastbase s;
-           s_lastcount := s_lastcount s; s_frag := s_frag s |}
+           s_lastcount := s_lastcount s; s_frag := s_frag s; s_base := s_base s |}
       else s
   end.
 
@@ -493,6 +567,7 @@ Definition count_okb (last : option Z) (c : Z) : bool :=
 Definition reply_ok (w : Z) (s : wspec) (r : reply) : option wspec :=
   match r with
   | AckNack w' base numbits bits count =>
+      (* base <= lowest number neither received nor DECLARED unavailable *)
       let truthful := match lowest_unknown s 1 with Some lu => base <=? lu | None => false end in
       let in_adv := match s_adv s with
                     | Some (first, last) => forallb (fun m => (first <=? m) && (m <=? last)) bits
@@ -500,25 +575,27 @@ Definition reply_ok (w : Z) (s : wspec) (r : reply) : option wspec :=
                     end in
       if (w' =? w) && truthful && (s_lastbase s <=? base)
          && (0 <=? numbits) && (numbits <=? 256) && incr_from base bits
-         && forallb (fun m => (m <? base + numbits) && negb (known s m)) bits && in_adv
+         (* listed as missing => really missing: neither received nor RECORDED as unavailable *)
+         && forallb (fun m => (m <? base + numbits) && negb (recorded s m)) bits && in_adv
          && count_okb (s_lastcount s) count
       then Some {| s_lo := s_lo s; s_rng := s_rng s; s_pts := s_pts s; s_hbmax := s_hbmax s;
                    s_adv := s_adv s; s_lastbase := base; s_lastcount := Some count;
-                   s_frag := s_frag s |}
+                   s_frag := s_frag s; s_base := s_base s |}
       else None
   | NackFrag w' sn base numbits bits count =>
       let in_adv := match s_adv s with
                     | Some (first, last) => (first <=? sn) && (sn <=? last)
                     | None => false
                     end in
-      if (w' =? w) && negb (known s sn) && in_adv && memz sn (s_frag s)
+      (* the sample whose fragments are requested is really missing: not RECORDED *)
+      if (w' =? w) && negb (recorded s sn) && in_adv && memz sn (s_frag s)
          && (1 <=? base) && (0 <=? numbits) && (numbits <=? 256) && incr_from base bits
          && forallb (fun m => m <? base + numbits) bits
          && match bits with b0 :: _ => b0 =? base | [] => false end
          && count_okb (s_lastcount s) count
       then Some {| s_lo := s_lo s; s_rng := s_rng s; s_pts := s_pts s; s_hbmax := s_hbmax s;
                    s_adv := s_adv s; s_lastbase := s_lastbase s; s_lastcount := Some count;
-                   s_frag := s_frag s |}
+                   s_frag := s_frag s; s_base := s_base s |}
       else None
   end.
 
@@ -535,11 +612,12 @@ Definition requested (m : Z) (rs : list reply) : bool :=
                     | NackFrag _ sn _ _ _ _ => sn =? m
                     end) rs.
 
-(* after an effective HEARTBEAT: if its range contains an unknown number, the lowest is requested *)
+(* after an effective HEARTBEAT: if its range contains a number that is not RECORDED (a missing
+   sample), the lowest such number is requested *)
 Definition lowest_requested_ok (s : wspec) (o : op) (rs : list reply) : bool :=
   match o with
   | Hb _ first last _ _ =>
-      match lowest_unknown s (Z.max first 1) with
+      match lowest_unrecorded s (Z.max first 1) with
       | Some m0 => if m0 <=? last then requested m0 rs else true
       | None => false
       end
@@ -573,7 +651,10 @@ Definition step_ok (S : sstate) (o : op) (so : sobs) : option sstate :=
         | None => None
         | Some s2 =>
             if eff && negb (lowest_requested_ok s1 o (so_replies so)) then None
-            else Some (fun k => if k =? w then Some s2 else S k)
+            else
+              (* the hand-over bound observed after this submessage is the ack base the next GAP
+                 of this writer meets *)
+              Some (fun k => if k =? w then Some (set_sbase s2 (so_base so)) else S k)
         end
   end.
 
